@@ -1,3 +1,149 @@
-/- C14 — property theorems: see below (being extended). -/
+/-
+  C14 — exited threads give their IDs back: ID capacity is never lost.
+-/
+import CppUtil.Proofs.IdMgrInv
 import CppUtil.Gen.Thread
-import CppUtil.Model.TClient
+
+namespace CppUtil.Props
+open CppUtil CppUtil.IdMgr
+
+/-- every reservation flag that is set belongs to exactly one thread between its claim and its release
+    step; in particular, once all threads have exited, every flag is clear -/
+theorem c14_all_exited_all_free (n : Nat) (hn : 0 < n) (ef : Bool) (nthreads : Nat) (acts : List Act) (s : St)
+    (h : run n ef (mkSt n nthreads) acts = some s)
+    (hd : ∀ l ∈ s.threads, l = .dead ∨ l = .fresh) (i : Nat) (hi : i < n) : s.slots.getD i false = false := by
+  have hI := inv_run hn (inv_init n nthreads ef) h
+  have hz : resCount ef s i = 0 := by
+    unfold resCount
+    apply List.countP_eq_zero.mpr
+    intro l hl
+    rcases hd l hl with rfl | rfl <;> simp [reserves]
+  have := hI.cnt i hi
+  cases hb : s.slots.getD i false with
+  | false => rfl
+  | true => rw [hb, hz] at this; simp at this
+
+/-- the number of set flags equals the number of threads holding a reservation: a flag is never
+    left set by a thread that has finished its exit path -/
+theorem c14_flag_has_holder (n : Nat) (hn : 0 < n) (ef : Bool) (nthreads : Nat) (acts : List Act) (s : St)
+    (h : run n ef (mkSt n nthreads) acts = some s) (i : Nat) (hi : i < n) (hset : s.slots.getD i false = true) :
+    ∃ t : Nat, ∃ l : TLoc, s.threads[t]? = some l ∧ reserves ef l = some i := by
+  have hI := inv_run hn (inv_init n nthreads ef) h
+  have := hI.cnt i hi
+  rw [hset] at this
+  have hpos : 0 < resCount ef s i := by simp at this; omega
+  unfold resCount at hpos
+  obtain ⟨l, hl, hp⟩ := List.countP_pos_iff.mp hpos
+  obtain ⟨t, ht, htl⟩ := List.getElem_of_mem hl
+  exact ⟨t, l, by rw [List.getElem?_eq_getElem ht, htl], by simpa using hp⟩
+
+/-- one probe round of a claimer running alone: from slot `id`, `j` slots ahead is free -/
+theorem solo_claim (n : Nat) (hn : 0 < n) (ef : Bool) : ∀ (j : Nat) (s : St) (t id : Nat),
+    Inv n ef s → s.threads[t]? = some (.pLoad id) → id < n →
+    (∀ k, k < j → s.slots.getD ((id + k) % n) false = true) → s.slots.getD ((id + j) % n) false = false →
+    ∃ s', run n ef s (List.replicate (j + 2) (.atom t)) = some s' ∧ s'.threads[t]? = some (.owner ((id + j) % n)) := by
+  intro j
+  induction j with
+  | zero =>
+    intro s t id hI ht hid _ hfree
+    have hmod : (id + 0) % n = id := by simp [Nat.mod_eq_of_lt hid]
+    rw [hmod] at hfree ⊢
+    have hidl : id < s.slots.length := by rw [hI.len]; exact hid
+    have e1 : step n ef s (.atom t) = some (setT s t (.pXchg id),
+        some { op := .load, loc := s!"I{id}", mo := .rlx, rd := 0, wr := 0 }) := by
+      simp only [step, ht, hfree, Bool.false_eq_true, ↓reduceIte]
+    have ht2 : (setT s t (.pXchg id)).threads[t]? = some (.pXchg id) := by
+      simp only [setT]; exact List.getElem?_set_self (getElem?_lt' ht)
+    refine ⟨{ setT { (setT s t (.pXchg id)) with slots := s.slots.set id true } t (.owner id) with
+                alive := s.alive.set t true }, ?_, ?_⟩
+    · show run n ef s [.atom t, .atom t] = _
+      simp only [run, e1]
+      simp only [step, ht2]
+      have : (setT s t (TLoc.pXchg id)).slots.getD id false = false := hfree
+      simp only [this, Bool.false_eq_true, ↓reduceIte]
+      rfl
+    · show (List.set _ t (TLoc.owner id))[t]? = _
+      apply List.getElem?_set_self
+      simp [setT]; exact getElem?_lt' ht
+  | succ j ih =>
+    intro s t id hI ht hid hbusy hfree
+    have h0 : s.slots.getD id false = true := by
+      have := hbusy 0 (by omega); simpa [Nat.mod_eq_of_lt hid] using this
+    have e1 : step n ef s (.atom t) = some (setT s t (.pLoad (nextId n id)),
+        some { op := .load, loc := s!"I{id}", mo := .rlx, rd := 1, wr := 1 }) := by
+      simp only [step, ht, h0, ↓reduceIte]
+    have hI' := inv_step hn hI e1
+    have ht2 : (setT s t (.pLoad (nextId n id))).threads[t]? = some (.pLoad (nextId n id)) := by
+      simp only [setT]; exact List.getElem?_set_self (getElem?_lt' ht)
+    have hnext : nextId n id = (id + 1) % n := by
+      unfold nextId
+      split
+      · rename_i hge
+        have : id + 1 = n := by omega
+        rw [this]; simp
+      · rename_i hlt
+        rw [Nat.mod_eq_of_lt (by omega)]
+    have hshift : ∀ k, (nextId n id + k) % n = (id + (k + 1)) % n := by
+      intro k; rw [hnext, Nat.add_mod, Nat.mod_mod, ← Nat.add_mod]; congr 1; omega
+    obtain ⟨s', hr, ho⟩ := ih (setT s t (.pLoad (nextId n id))) t (nextId n id) hI' ht2 (nextId_lt hn)
+      (by intro k hk; rw [hshift k]; exact hbusy (k + 1) (by omega))
+      (by rw [hshift j]; exact hfree)
+    refine ⟨s', ?_, ?_⟩
+    · show run n ef s (.atom t :: List.replicate (j + 2) (.atom t)) = _
+      simp only [run, e1]; exact hr
+    · rw [hshift j] at ho; exact ho
+
+/-- **a free ID is obtained**: if some reservation flag is clear, a probing thread that runs alone
+    becomes owner within `n + 1` further steps of the claim loop (at most one `load` per slot on the
+    way plus the final `exchange`) — GetThreadID returns as soon as some holder has exited. -/
+theorem c14_solo_claim_succeeds (n : Nat) (hn : 0 < n) (ef : Bool) (nthreads : Nat) (acts : List Act) (s : St)
+    (h : run n ef (mkSt n nthreads) acts = some s) (t id : Nat) (ht : s.threads[t]? = some (.pLoad id))
+    (i : Nat) (hi : i < n) (hfree : s.slots.getD i false = false) :
+    ∃ k s' id', k ≤ n + 1 ∧ run n ef s (List.replicate k (.atom t)) = some s' ∧ s'.threads[t]? = some (.owner id') := by
+  have hI := inv_run hn (inv_init n nthreads ef) h
+  have hid : id < n := hI.pos _ (List.mem_of_getElem? ht) id rfl
+  -- the first free slot at or after `id` (cyclically)
+  have hex : ∃ j, j < n ∧ s.slots.getD ((id + j) % n) false = false := by
+    refine ⟨(i + n - id) % n, Nat.mod_lt _ hn, ?_⟩
+    have : (id + (i + n - id) % n) % n = i := by
+      rw [Nat.add_mod, Nat.mod_mod, ← Nat.add_mod]
+      have : id + (i + n - id) = i + n := by omega
+      rw [this, Nat.add_mod_right, Nat.mod_eq_of_lt hi]
+    rw [this]; exact hfree
+  -- take the least such j
+  have hleast : ∃ j, j < n ∧ s.slots.getD ((id + j) % n) false = false ∧
+      ∀ k, k < j → s.slots.getD ((id + k) % n) false = true := by
+    obtain ⟨j0, hj0, hf0⟩ := hex
+    induction j0 using Nat.strongRecOn with
+    | _ j0 ih =>
+      by_cases hall : ∀ k, k < j0 → s.slots.getD ((id + k) % n) false = true
+      · exact ⟨j0, hj0, hf0, hall⟩
+      · have : ∃ k, k < j0 ∧ s.slots.getD ((id + k) % n) false = false := by
+          apply Classical.byContradiction
+          intro hc
+          apply hall
+          intro k hk
+          cases hb : s.slots.getD ((id + k) % n) false with
+          | true => rfl
+          | false => exact absurd ⟨k, hk, hb⟩ hc
+        obtain ⟨k, hk, hfk⟩ := this
+        exact ih k hk (by omega) hfk
+  obtain ⟨j, hj, hfj, hbusy⟩ := hleast
+  obtain ⟨s', hr, ho⟩ := solo_claim n hn ef j s t id hI ht hid hbusy hfj
+  exact ⟨j + 2, s', _, by omega, hr, ho⟩
+
+/-- exit gives the ID back: after a thread has completed its exit path its slot is clear unless somebody
+    else has claimed it meanwhile — stated as: the release step itself clears the flag. -/
+theorem c14_release_clears (n : Nat) (s s' : St) (t id : Nat) (e : Option Ev)
+    (ht : s.threads[t]? = some (.exit2 id)) (hid : id < s.slots.length)
+    (h : step n true s (.atom t) = some (s', e)) : s'.slots.getD id false = false ∧ s'.threads[t]? = some .dead := by
+  simp only [step, ht] at h
+  simp only [ite_true, Option.some.injEq, Prod.mk.injEq] at h
+  rw [← h.1]
+  refine ⟨?_, ?_⟩
+  · show (s.slots.set id false).getD id false = false
+    exact getD_set_self hid
+  · show (s.threads.set t .dead)[t]? = _
+    exact List.getElem?_set_self (getElem?_lt' ht)
+
+end CppUtil.Props
